@@ -525,6 +525,9 @@ def _check(pid, tier, replay=None):
         impl = json.load(open(impl_path))
     if rc != 0 or not impl:
         broken.append("harness failed to build or run against /repo (exit %d): %s" % (rc, hout.strip()[-600:]))
+    elif not replay and not impl.get("evaluations", 0):
+        # a generating run always produces cases: an empty one compared nothing (never report that as "held")
+        broken.append("harness ran but produced no cases: %s" % hout.strip()[-400:])
 
     # 3. model on the same cases
     shards = sorted(glob.glob(os.path.join(outdir, "cases_*.v")))
